@@ -242,64 +242,83 @@ def _field_guards(ck: Check, prog: Program, f: FuncInfo) -> None:
             ck.finding('FIELD-GUARD', f.qualname, f'member {key!r} replaced before its type check', f.module.rel, defnode.line,
                        f'`{norm(defnode.ast)}`: the member is replaced by a default whenever it is falsy, so a present-but-invalid value '
                        f'(null, 0, "", false) bypasses the type check that follows and a structurally invalid message is accepted')
-        guards = []
-        bool_excluded = False
-        for c, e in redges:
+        # Per-JSON-type reachability: for each JSON type the member can have, the branches of every test on the member
+        # (isinstance / is None, in any nesting, order or De-Morgan form) are resolved for that type and the constructor
+        # must be unreachable for the types the specification does not admit.
+        TAGS = ('null', 'bool', 'int', 'float', 'str', 'list', 'dict')
+        INST = {'bool': {'bool'}, 'int': {'bool', 'int'}, 'float': {'float'}, 'str': {'str'}, 'list': {'list'}, 'dict': {'dict'},
+                'tuple': set(), 'object': set(TAGS), 'NoneType': {'null'}}
+        conds = []
+        for c in cfg.nodes:
+            if c.kind != 'cond':
+                continue
             ckd = classify_cond(prog, f, c.ast)
-            if ckd.subject != var or ckd.kind != 'isinstance':
+            if ckd.subject != var:
                 continue
-            names = set(ckd.detail.split(','))
-            raises_when_instance = (e.label == 'T') != ckd.negated
-            if raises_when_instance:
-                if names == {'bool'}:
-                    bool_excluded = True
-                continue
-            guards.append((c, names))
-        none_edges = []
-        if nullable:
-            for c in cfg.nodes:
-                if c.kind == 'cond':
-                    ckd = classify_cond(prog, f, c.ast)
-                    if ckd.kind == 'is-none' and ckd.subject == var:
-                        none_edges += [e for e in cfg.succ[c.id] if e.label in ('T', 'F') and (e.label == 'T') != ckd.negated]
-        reach = cfg.reachable(cfg.entry, avoid_nodes=[c for c, _ in guards], avoid_edges=none_edges)
-        ok = bool(guards) and all(n.id not in reach for n in ctor_nodes)
-        widest: Set[str] = set()
-        for _, names in guards:
-            widest |= names
+            if ckd.kind == 'isinstance':
+                names = set(ckd.detail.split(','))
+                if not names <= set(INST):
+                    continue            # a class the JSON decoder never produces / unknown: both branches stay possible
+                conds.append((c, set().union(*[INST[n] for n in names]), ckd.negated))
+            elif ckd.kind == 'is-none':
+                conds.append((c, {'null'}, ckd.negated))
+
+        def wrong_edges(tag: str):
+            out = []
+            for c, true_for, negated in conds:
+                holds = (tag in true_for) != negated
+                out += [e for e in cfg.succ[c.id] if e.label in ('T', 'F') and (e.label == 'T') != holds]
+            return out
+        reach_by_tag = {t: cfg.reachable(cfg.entry, avoid_edges=wrong_edges(t)) for t in TAGS}
+        through = {t for t in TAGS if any(n.id in reach_by_tag[t] for n in ctor_nodes)}
+        allowed = set(admitted & set(TAGS)) | ({'null'} if nullable else set())
+        guard_nodes = [c for c, _, _ in conds]
+        first_line = guard_nodes[0].line if guard_nodes else defnode.line
+        ok = bool(conds) and through != set(TAGS) and bool(ctor_nodes)
         ck.ob('FIELD-GUARD', f'{short(f.qualname)}: member {key!r} type-checked before the message is built', ok,
-              sample={'member': key, 'admitted': sorted(widest), 'spec': sorted(admitted)})
+              sample={'member': key, 'json_types_reaching_the_constructor': sorted(through), 'spec': sorted(allowed)})
         if not ok:
             ck.finding('FIELD-GUARD', f.qualname, f'member {key!r} unchecked', f.module.rel, defnode.line,
                        f'member {key!r} reaches the constructor without a type check that raises DeserializationError: '
                        f'structurally invalid messages would be accepted')
             continue
-        # every other use of the member (registry lookups, constructor arguments, …) comes after its type check
-        gnodes = [c for c, _ in guards]
+        # every other use of the member (registry lookups, constructor arguments, …) happens only for admitted types
         early = []
         for n in cfg.stmt_nodes():
-            if n in gnodes or n is defnode or isinstance(n.ast, ast.Raise) or n.kind == 'cond' and classify_cond(prog, f, n.ast).subject == var:
+            if n in guard_nodes or n is defnode or isinstance(n.ast, ast.Raise) or n.kind == 'cond' and classify_cond(prog, f, n.ast).subject == var:
                 continue
             if var in {x.id for frag in node_exprs(n) for x in walk_no_defs(frag) if isinstance(x, ast.Name) and isinstance(x.ctx, ast.Load)}:
-                if n.id in cfg.reachable(cfg.entry, avoid_nodes=gnodes, avoid_edges=none_edges):
-                    early.append(n)
+                bad_tags = sorted(t for t in TAGS if t not in allowed and n.id in reach_by_tag[t])
+                if bad_tags:
+                    early.append((n, bad_tags))
         ck.ob('FIELD-GUARD', f'{short(f.qualname)}: member {key!r} is not used before its type check', not early)
-        for n in early:
+        extra = through - allowed
+        for n, bad_tags in early:
+            if any(n is c for c in ctor_nodes) and extra:
+                continue        # reported below as an admitted type
             ck.finding('FIELD-GUARD', f.qualname, f'member {key!r} used before its type check', f.module.rel, n.line,
-                       f'`{norm(n.ast)[:80]}` uses member {key!r} before the check that rejects wrong JSON types: an unexpected type '
-                       f'(e.g. an unhashable list/object where a scalar is expected) raises TypeError instead of DeserializationError')
-        extra = widest - admitted
-        ck.ob('FIELD-GUARD', f'{short(f.qualname)}: member {key!r} admits only {sorted(admitted)}', not extra)
-        if extra:
-            ck.finding('FIELD-GUARD', f.qualname, f'member {key!r} admits {sorted(extra)}', f.module.rel, guards[0][0].line,
-                       f'member {key!r} admits JSON types {sorted(extra)} beyond {sorted(admitted)}')
-        if 'int' in widest:
+                       f'`{norm(n.ast)[:80]}` uses member {key!r} when it is a JSON {"/".join(bad_tags)}, i.e. before the check that rejects '
+                       f'wrong JSON types: an unexpected type (e.g. an unhashable list/object where a scalar is expected) raises '
+                       f'TypeError instead of DeserializationError')
+        extra_nb = extra - {'bool'} if 'int' in allowed else extra
+        ck.ob('FIELD-GUARD', f'{short(f.qualname)}: member {key!r} admits only {sorted(allowed)}', not extra_nb)
+        if extra_nb:
+            ck.finding('FIELD-GUARD', f.qualname, f'member {key!r} admits {sorted(extra_nb)}', f.module.rel, first_line,
+                       f'member {key!r} admits JSON types {sorted(extra_nb)} beyond {sorted(allowed)}')
+        if 'int' in allowed:
+            bool_excluded = 'bool' not in through
             ck.ob('JSON-BOOL', f'{short(f.qualname)}: integer guard on member {key!r} excludes bool', bool_excluded,
-                  sample={'guard': norm(guards[0][0].ast)})
+                  sample={'guard': norm(guard_nodes[0].ast)})
             if not bool_excluded:
-                ck.finding('JSON-BOOL', f.qualname, f'member {key!r}: isinstance int admits bool', f.module.rel, guards[0][0].line,
-                           f'`{norm(guards[0][0].ast)}` admits JSON true/false for member {key!r}: bool is a subclass of int '
+                ck.finding('JSON-BOOL', f.qualname, f'member {key!r}: isinstance int admits bool', f.module.rel, first_line,
+                           f'a JSON true/false reaches the constructor as member {key!r}: bool is a subclass of int '
                            f'in Python, but a JSON boolean is not a number (ids/codes must be integers)')
+        missing = allowed - through
+        ck.ob('FIELD-GUARD', f'{short(f.qualname)}: every admitted JSON type of member {key!r} is accepted', not missing)
+        if missing:
+            ck.finding('FIELD-GUARD', f.qualname, f'member {key!r} rejects {sorted(missing)}', f.module.rel, first_line,
+                       f'member {key!r} of JSON type {sorted(missing)} is admitted by the protocol but never reaches the constructor: '
+                       f'well-formed messages are rejected')
 
 
 def _container_guard(ck: Check, prog: Program, f: FuncInfo) -> None:
